@@ -490,8 +490,10 @@ def main():
                 old = f.read()
         changed = old != text
         if changed:
-            with open(target, "w") as f:
+            tmp = "%s.%d.tmp" % (target, os.getpid())      # atomic: a concurrent `lake build` never sees a half-written file
+            with open(tmp, "w") as f:
                 f.write(text)
+            os.replace(tmp, target)
         status[spec["module"]] = {"ok": True, "changed": changed, "path": os.path.relpath(target, os.path.join(here, ".."))}
     print(json.dumps(status, indent=1))
     return 0
